@@ -96,6 +96,13 @@ class CTree(Model):
     def a_outliers(self, I):
         return SymSeq("outliers", self.n_out, lambda j: DPm("out", j))
 
+    def a_data(self, I):
+        # Tree.data: every data point of the tree, the outliers included
+        b = alg.fresh_bound()
+        total = alg.bigsum("", self.K, alg.raw_app("size", b, sort="Int"), bound=b) + self.n_out
+        I.P.assume(I.P.z(total) >= 0)
+        return SymSeq("tree.data", total, lambda j: DPm("any", j))
+
 
 class NodeData(Model):
     def __init__(self, t):
